@@ -6,6 +6,7 @@ import (
 	"encoding/hex"
 	"encoding/json"
 	"fmt"
+	cryptotypes "github.com/cosmos/cosmos-sdk/crypto/types"
 	"math/rand"
 	"os"
 	"strings"
@@ -96,16 +97,39 @@ func (r *Replica) signedTx(ctx sdk.Context, e *Event) ([]byte, error) {
 	if msg == nil {
 		return nil, fmt.Errorf("no message for %s", e.Kind)
 	}
-	acc := r.Acc(e.Creator)
-	if acc == nil {
-		return nil, fmt.Errorf("unknown signer %s", e.Creator)
+	msgs := []sdk.Msg{msg}
+	signers := []string{e.Creator}
+	for i := range e.Also {
+		a := &e.Also[i]
+		a.Normalize()
+		m := r.Msg(a)
+		if m == nil {
+			return nil, fmt.Errorf("no message for %s", a.Kind)
+		}
+		msgs = append(msgs, m)
+		seen := false
+		for _, s := range signers {
+			seen = seen || s == a.Creator
+		}
+		if !seen {
+			signers = append(signers, a.Creator)
+		}
 	}
-	var num, seq uint64
-	if a := r.App.AccountKeeper.GetAccount(ctx, acc.Addr); a != nil {
-		num, seq = a.GetAccountNumber(), a.GetSequence()
+	var nums, seqs []uint64
+	var privs []cryptotypes.PrivKey
+	for _, s := range signers {
+		acc := r.Acc(s)
+		if acc == nil {
+			return nil, fmt.Errorf("unknown signer %s", s)
+		}
+		var num, seq uint64
+		if a := r.App.AccountKeeper.GetAccount(ctx, acc.Addr); a != nil {
+			num, seq = a.GetAccountNumber(), a.GetSequence()
+		}
+		nums, seqs, privs = append(nums, num), append(seqs, seq), append(privs, acc.Priv)
 	}
 	// fixed memo source: identical bytes on every replica
-	tx, err := helpers.GenSignedMockTx(rand.New(rand.NewSource(int64(seq)+7)), r.encCfg.TxConfig, []sdk.Msg{msg}, sdk.NewCoins(), 50_000_000, ChainID, []uint64{num}, []uint64{seq}, acc.Priv)
+	tx, err := helpers.GenSignedMockTx(rand.New(rand.NewSource(int64(seqs[0])+7)), r.encCfg.TxConfig, msgs, sdk.NewCoins(), 50_000_000, ChainID, nums, seqs, privs...)
 	if err != nil {
 		return nil, err
 	}
